@@ -1,0 +1,12 @@
+// Copyright IBM Corp. 2013, 2026
+// SPDX-License-Identifier: MPL-2.0
+
+//go:build !verif
+
+package raft
+
+// verifHook is a no-op unless the package is built with the "verif" tag.
+func verifHook(string, *Raft, uint64, uint64, uint64, uint64) {}
+
+// verifFSHook is a no-op unless the package is built with the "verif" tag.
+func verifFSHook(string, string) {}
